@@ -289,6 +289,27 @@ theorem C06_roundtrip_owns_copies {w : World} (hi : Inv w) (hres : ResOk w) (k :
       simp only [Arch.values, retagArch, List.map_flatten]
   exact key _ _
 
+/-- … and conversely: every row the copy's query returns has its counterpart in the original's. -/
+theorem C06_lockstep_queries_rev {w : World} (hi : Inv w) (hres : ResOk w) {k : Kinds} (hz : ZOk k w)
+    (hr : Bool) (e next : Nat) (opsa opsb : List Op) (hops : opsa.map Op.forget = opsb.map Op.forget)
+    (hwt : ∀ op ∈ opsa, op.wt w.n) :
+    ∃ w', deserialize k hr w.n w.res.length e next (serialize hr w) = .ok w' ∧
+      ∀ {a b : World} {ia ib : List Ident}, runIssued w opsa = .ok (a, ia) → runIssued w' opsb = .ok (b, ib) →
+        ∀ (vs : List View) (f : Filter), ∃ rb ra, b.query vs f = .ok rb ∧ a.query vs f = .ok ra ∧
+          ∀ row ∈ rb, ∃ id vals vals', b.entity id = some vals ∧ a.entity id = some vals' ∧
+            rowEqv vals vals' = true ∧ row = vs.map (Spec.cellOf ⟨id, vals⟩) ∧
+            vs.map (Spec.cellOf ⟨id, vals'⟩) ∈ ra := by
+  obtain ⟨w', h1, h2, h3, _, _, _, h7⟩ := C06_roundtrip hi hres hz hr e next
+  obtain ⟨al, _, hde⟩ := roundtrip_ok hi hres k hr e next
+  have hn : w.n = w'.n := by
+    rw [hde] at h1
+    simp only [Except.ok.injEq] at h1
+    rw [← h1]; rfl
+  refine ⟨w', h1, ?_⟩
+  intro a b ia ib ra rb vs f
+  obtain ⟨_, t⟩ := twin_run opsa opsb hops hi h2 ⟨hn, eqWorld_abs hi h2 h3, h7⟩ hwt ra rb
+  exact twin_query (runIssued_inv opsb h2 rb) (runIssued_inv opsa hi ra) t.symm vs f
+
 /-- A value that may be stored: zero-sized kinds carry no identity. -/
 def ZVal (k : Kinds) (v : Val) : Prop := k.kindOf v.ty = 'z' → v.base = 0
 
@@ -385,3 +406,4 @@ end Brood
 #print axioms Brood.C06_lockstep_len_res
 #print axioms Brood.C06_lockstep_queries
 #print axioms Brood.C06_roundtrip_owns_copies
+#print axioms Brood.C06_lockstep_queries_rev
